@@ -22,10 +22,12 @@ META = dict(
 )
 
 
-def tensor(env, topo, grid, radius):
+def tensor(env, topo, grid, radius, scale=1.0):
     import forsys as fs
     import forsys.stress_tensor as st
     spec = catalogue(topo, n_spoke=4, n_border=2, bulge=0.1)
+    if scale != 1.0:
+        spec.points = {k: (x * scale, y * scale) for k, (x, y) in spec.points.items()}     # the same tissue in another length unit
     runs = {}
     alpha, beta = env.real("alpha"), env.real("beta")
     P, T = {}, {}
@@ -147,5 +149,7 @@ def jobs(tier):
                     continue
                 js.append(Job(f"tensor-{topo}-grid{grid}-r{radius}", "c18:tensor", dict(topo=topo, grid=grid, radius=radius), budget_s=600,
                               opts=dict(cheap_forks=True)))
+    js.append(Job("tensor-T3-grid2-r2-tiny-length-unit", "c18:tensor", dict(topo="T3", grid=2, radius=2, scale=2e-5), budget_s=600,
+                  opts=dict(cheap_forks=True)))
     js.append(Job("tensor-T3-grid12-r1", "c18:tensor", dict(topo="T3", grid=12, radius=1), budget_s=600, opts=dict(cheap_forks=True)))
     return js
